@@ -71,6 +71,8 @@ def reward_st(family):
         return st.integers(-50, 50)
     if family == "Epos":   # non-negative, exactly summable
         return st.integers(0, 400).map(lambda k: k / 8.0)
+    if family == "M":      # exactly summable, in the thousands: multiples of 1/2 in [-2000, 2000]
+        return st.integers(-4000, 4000).map(lambda k: k / 2.0)
     if family == "F":
         return st.floats(-1e6, 1e6, allow_nan=False, allow_infinity=False, width=64)
     if family == "Fpos":
@@ -101,6 +103,8 @@ def reward_family_for(lp_desc, draw, exact_only=False, allow_float_binary=True):
         return draw(st.sampled_from(["B", "Bf"])) if allow_float_binary else "B"
     if name == "Popularity":
         return "Epos" if exact_only else draw(st.sampled_from(["Epos", "Epos", "Fpos"]))
+    if name == "Softmax" and draw(st.integers(0, 2)) == 0:
+        return "M"
     if exact_only:
         return draw(st.sampled_from(["E", "Eint"]))
     return draw(st.sampled_from(["E", "E", "Eint", "F"]))
@@ -148,6 +152,10 @@ def lp_st(draw, names, arms=None, deterministic=False, lam_min=0.01, with_binari
             return [name, {"alpha": q(draw(st.floats(0, 5, allow_nan=False)))}]
         return [name, {"alpha": draw(st.sampled_from([0, 1, 0.5, 2.25, 0.1]))}]
     if name == "Softmax":
+        if draw(st.integers(0, 5)) == 0:
+            # temperatures far from 1 (the documented range is tau > 0): with rewards in the thousands the exponents
+            # (mean - max) / tau are moderate while mean - max alone is beyond what exp() can represent
+            return [name, {"tau": draw(st.sampled_from([40, 100, 400, 1000.0, 1e6, 0.01]))}]
         if anyval:
             return [name, {"tau": q(draw(st.floats(0.05, 10, allow_nan=False)))}]
         return [name, {"tau": draw(st.sampled_from([1, 0.5, 0.1, 5, 2.5]))}]
